@@ -9,6 +9,11 @@
 //! is pending for that long (the layers leave a fresh clone behind with every call, which a per-instance recovery never meets).
 //! `lq=<n>`: the completion listeners of the outermost layer make up to n probe calls (see `Prober`); `manual probes`
 //! polls unfinished probes once, `probe probes` reports every probe (`presult <k> <outcome> twin=<outcome>`).
+//! `lqe=<n> lqat=<j>`: EVERY listener event of layer j (admission, retry, pass-through, completion — whatever the layer
+//! emits on the call path) makes a probe call through the whole stack from inside the listener, at most n per case
+//! ("a listener may always USE the service"); these probes' outcomes are not compared with the twin's (the emitting call
+//! is legitimately in flight), only that they end, that no call's outcome changes and that the later listeners still run.
+//! `arrive … keep=1` + `release c`: the caller keeps its FINISHED call future alive (both stacks: the pair is kept).
 //! boundary `b0` is the one the harness drives, `b<n>` the one of the inner service.
 //! log:  `b<j> clone <src> <new>` · `b<j> poll <i> ready|pending|err` · `b<j> call <i> <tag>`
 //! Every boundary event is also recorded with `world::obs("ev", …)` so the model driver replays it.
@@ -95,6 +100,28 @@ impl<S: Clone> Clone for Tap<S> {
         Tap { inner, b: self.b, id: new, sh: self.sh.clone(), last_pending: None }
     }
 }
+thread_local! {
+    /// how many `Service::call` / `Service::poll_ready` frames of tapped services are on the stack: a listener that runs
+    /// inside one of them (cache emits hit / miss in its synchronous `call()`) does not probe — the layer automaton
+    /// treats a layer's synchronous clone / call sequence as atomic
+    static SYNC_DEPTH: std::cell::Cell<u32> = const { std::cell::Cell::new(0) };
+}
+struct InSync;
+impl InSync {
+    fn enter() -> InSync {
+        SYNC_DEPTH.with(|d| d.set(d.get() + 1));
+        InSync
+    }
+}
+impl Drop for InSync {
+    fn drop(&mut self) {
+        SYNC_DEPTH.with(|d| d.set(d.get().saturating_sub(1)));
+    }
+}
+fn in_sync_service_method() -> bool {
+    SYNC_DEPTH.with(|d| d.get() > 0)
+}
+
 impl<S> Service<Req> for Tap<S>
 where
     S: Service<Req, Response = Resp, Error = SErr>,
@@ -103,6 +130,7 @@ where
     type Error = SErr;
     type Future = S::Future;
     fn poll_ready(&mut self, cx: &mut Context<'_>) -> Poll<Result<(), SErr>> {
+        let _g = InSync::enter();
         let r = self.inner.poll_ready(cx);
         let s = match &r {
             Poll::Ready(Ok(())) => "ready",
@@ -124,6 +152,7 @@ where
     fn call(&mut self, req: Req) -> S::Future {
         self.last_pending = None;
         ev(&self.sh, self.b, format!("call {} {}", self.id, req.tag));
+        let _g = InSync::enter();
         self.inner.call(req)
     }
 }
@@ -292,17 +321,33 @@ impl ListenerCounts {
 /// Probe requests are numbered from 900 (`c` and `tag`), plan `lqinner=` (default `0:ok`).
 pub struct Prober {
     svc: Mutex<Option<BoxSvc>>,
+    /// completion probes left (`lq`): completion listeners of the outermost layer, outcome compared with the twin's
     budget: AtomicU64,
+    lq: u64,
+    /// call-path probes left (`lqe`), made by every listener event of layer `mid_at` (`lqat`); not compared
+    mid_budget: AtomicU64,
+    lqe: u64,
+    mid_at: usize,
     /// inside a probe (or while probes are polled): their own completion events do not probe again
     busy: AtomicBool,
     /// twin: the listener only notes the request; `launch_wanted` makes the probe after the step
     deferred: bool,
-    wanted: AtomicU64,
+    /// noted requests, in order (`true`: a call-path probe)
+    wanted: Mutex<VecDeque<bool>>,
     next: AtomicU64,
     plan: String,
     quiet: bool,
     pending: Mutex<Vec<(u64, BoxFuture<'static, String>)>>,
     done: Mutex<Vec<(u64, String)>>,
+}
+
+/// where on the call path a listener runs
+#[derive(Clone, Copy, PartialEq)]
+pub enum Hook {
+    /// an event emitted after the wrapped call has returned
+    Done,
+    /// any other event of the call path (admission, rejection, retry, pass-through, attempt started)
+    Mid,
 }
 
 fn poll_once(f: &mut BoxFuture<'static, String>) -> Poll<String> {
@@ -313,13 +358,17 @@ fn poll_once(f: &mut BoxFuture<'static, String>) -> Poll<String> {
 }
 
 impl Prober {
-    fn new(n: u64, plan: String, quiet: bool) -> Prober {
+    fn new(lq: u64, lqe: u64, mid_at: usize, plan: String, quiet: bool) -> Prober {
         Prober {
             svc: Mutex::new(None),
-            budget: AtomicU64::new(n),
+            budget: AtomicU64::new(lq),
+            lq,
+            mid_budget: AtomicU64::new(lqe),
+            lqe,
+            mid_at,
             busy: AtomicBool::new(false),
             deferred: quiet,
-            wanted: AtomicU64::new(0),
+            wanted: Mutex::new(VecDeque::new()),
             next: AtomicU64::new(0),
             plan,
             quiet,
@@ -334,32 +383,48 @@ impl Prober {
             *g = Some(top.clone());
         }
     }
-    /// called by the completion listeners of the outermost layer
-    fn fire(&self) {
+    /// called by the listeners of layer `j`
+    fn fire(&self, j: usize, hook: Hook) {
         if self.busy.load(Ordering::SeqCst) {
             return;
         }
-        if self.budget.fetch_update(Ordering::SeqCst, Ordering::SeqCst, |b| b.checked_sub(1)).is_err() {
+        let mid = if hook == Hook::Done && j == 0 && self.lq > 0 {
+            false
+        } else if self.lqe > 0 && j == self.mid_at {
+            // a listener running inside a synchronous `call()` / `poll_ready()` does not probe (see `SYNC_DEPTH`)
+            if in_sync_service_method() {
+                return;
+            }
+            true
+        } else {
+            return;
+        };
+        let b = if mid { &self.mid_budget } else { &self.budget };
+        if b.fetch_update(Ordering::SeqCst, Ordering::SeqCst, |b| b.checked_sub(1)).is_err() {
             return;
         }
         if self.deferred {
-            self.wanted.fetch_add(1, Ordering::SeqCst);
+            self.wanted.lock().unwrap_or_else(|e| e.into_inner()).push_back(mid);
         } else {
-            self.launch("in-listener");
+            self.launch("in-listener", mid);
         }
     }
     fn launch_wanted(&self) {
-        while self.wanted.fetch_update(Ordering::SeqCst, Ordering::SeqCst, |w| w.checked_sub(1)).is_ok() {
-            self.launch("after-step");
+        loop {
+            let w = self.wanted.lock().unwrap_or_else(|e| e.into_inner()).pop_front();
+            match w {
+                Some(mid) => self.launch("after-step", mid),
+                None => break,
+            }
         }
     }
-    fn launch(&self, when: &str) {
+    fn launch(&self, when: &str, mid: bool) {
         let svc = self.svc.lock().unwrap_or_else(|e| e.into_inner()).as_ref().map(|s| s.clone());
         let Some(mut svc) = svc else { return };
         let k = self.next.fetch_add(1, Ordering::SeqCst);
         self.busy.store(true, Ordering::SeqCst);
         if !self.quiet {
-            log(format!("pstart {} {}", k, when));
+            log(format!("pstart {} {} {}", k, when, if mid { "mid" } else { "done" }));
         }
         let id = 900 + k;
         let kv = Kv(vec![("tag".to_string(), id.to_string()), ("inner".to_string(), self.plan.clone())]);
@@ -377,6 +442,10 @@ impl Prober {
         drop(svc);
         if let Some(s) = out {
             self.done.lock().unwrap_or_else(|e| e.into_inner()).push((k, s));
+        }
+        if !self.quiet && mid {
+            // the listener goes on: whatever the layer holds while it emits did not stop the listener's own request
+            log(format!("pback {}", k));
         }
         self.busy.store(false, Ordering::SeqCst);
     }
@@ -412,16 +481,72 @@ impl Prober {
     }
 }
 
-fn firer(pr: &Option<Arc<Prober>>) -> impl Fn() + Clone + Send + Sync + 'static {
+fn firer(pr: &Option<Arc<Prober>>, j: usize, hook: Hook) -> impl Fn() + Clone + Send + Sync + 'static {
     let p = pr.clone();
     move || {
         if let Some(p) = &p {
-            p.fire()
+            p.fire(j, hook)
         }
     }
 }
 
 // ------------------------------------------------------------------ layers
+
+/// `ServiceExt::map_err`, except that the wrapped call future is NOT destroyed in the poll that completes it (the
+/// `futures` combinator behind tower's `MapErr` drops it there): it lives exactly as long as the future handed to the
+/// caller, as it does when a layer is used without an adapter — otherwise a caller that keeps a finished future
+/// (`keep=1`) would keep nothing of the layer alive.
+#[derive(Clone)]
+struct MapE<S, F> {
+    inner: S,
+    f: F,
+}
+fn map_e<S, F>(inner: S, f: F) -> MapE<S, F>
+where
+    S: Service<Req, Response = Resp>,
+    F: Fn(S::Error) -> SErr + Clone,
+{
+    MapE { inner, f }
+}
+struct MapEFut<Fut, F> {
+    fut: Pin<Box<Fut>>,
+    f: F,
+    done: bool,
+}
+impl<Fut, F, E> Future for MapEFut<Fut, F>
+where
+    Fut: Future<Output = Result<Resp, E>>,
+    F: Fn(E) -> SErr + Unpin,
+{
+    type Output = Result<Resp, SErr>;
+    fn poll(mut self: Pin<&mut Self>, cx: &mut Context<'_>) -> Poll<Self::Output> {
+        if self.done {
+            panic!("call future polled after completion");
+        }
+        match self.fut.as_mut().poll(cx) {
+            Poll::Ready(r) => {
+                self.done = true;
+                Poll::Ready(r.map_err(&self.f))
+            }
+            Poll::Pending => Poll::Pending,
+        }
+    }
+}
+impl<S, F> Service<Req> for MapE<S, F>
+where
+    S: Service<Req, Response = Resp>,
+    F: Fn(S::Error) -> SErr + Clone + Unpin,
+{
+    type Response = Resp;
+    type Error = SErr;
+    type Future = MapEFut<S::Future, F>;
+    fn poll_ready(&mut self, cx: &mut Context<'_>) -> Poll<Result<(), SErr>> {
+        self.inner.poll_ready(cx).map_err(&self.f)
+    }
+    fn call(&mut self, req: Req) -> Self::Future {
+        MapEFut { fut: Box::pin(self.inner.call(req)), f: self.f.clone(), done: false }
+    }
+}
 
 fn boxed<S>(svc: S) -> BoxSvc
 where
@@ -432,8 +557,10 @@ where
 }
 
 type KeyFn = fn(&Req) -> u64;
+/// the key of the keyed layers (cache, coalesce): the tag modulo 1000 — requests `t`, `t+1000`, … share a key and are
+/// still told apart by their tags
 fn tag_of(r: &Req) -> u64 {
-    r.tag
+    r.tag % 1000
 }
 fn chaos_inject(_r: &Req) -> SErr {
     SErr("chaos!injected".into())
@@ -461,12 +588,16 @@ fn layer_spawns(name: &str) -> bool {
 }
 
 /// Apply layer `name` (in a non-triggering configuration unless the name says otherwise) to `inner`.
-fn apply(name: &str, inner: BoxSvc, lc: &Arc<ListenerCounts>, pr: &Option<Arc<Prober>>) -> Option<BoxSvc> {
+fn apply(name: &str, inner: BoxSvc, lc: &Arc<ListenerCounts>, pr: &Option<Arc<Prober>>, j: usize) -> Option<BoxSvc> {
     let l0 = lc.clone();
     let l1 = lc.clone();
     let l2 = lc.clone();
-    // completion listeners of this layer that call the service (only the outermost layer is given a prober)
-    let (f0, f1, f2) = (firer(pr), firer(pr), firer(pr));
+    // listeners of this layer that call the service: completion events (`f*`; compared with the twin when this is the
+    // outermost layer and `lq` is set) and the other events of the call path (`m*`; `lqe` + `lqat=j`). The call-path
+    // ones are registered BEFORE two of the counting listeners: those must still be told the event.
+    let (f0, f1, f2) = (firer(pr, j, Hook::Done), firer(pr, j, Hook::Done), firer(pr, j, Hook::Done));
+    let (m0, m1, m2) = (firer(pr, j, Hook::Mid), firer(pr, j, Hook::Mid), firer(pr, j, Hook::Mid));
+    let _ = (&m1, &m2);
     Some(match name {
         // `bulkhead1`: at its limit with every call (one slot, full = rejected at once); `bulkhead1w`: one slot,
         // a full bulkhead is waited for at most 10 ms. Only for requests that do not overlap (see gen/stack.py).
@@ -480,12 +611,14 @@ fn apply(name: &str, inner: BoxSvc, lc: &Arc<ListenerCounts>, pr: &Option<Arc<Pr
             };
             let layer = b
                 .on_call_permitted(move |_| l0.hit(0))
+                .on_call_permitted(move |_| m0())
                 .on_call_permitted(move |_| l1.hit(1))
                 .on_call_permitted(move |_| l2.hit(2))
+                .on_call_rejected(move |_| m1())
                 .on_call_finished(move |_| f0())
                 .on_call_failed(move |_| f1())
                 .build();
-            boxed(layer.layer(inner).map_err(|e| match e {
+            boxed(map_e(layer.layer(inner), |e| match e {
                 BulkheadServiceError::Inner(e) => SErr(format!("bulkhead({})", e)),
                 BulkheadServiceError::Bulkhead(x) => SErr(format!("bulkhead!{:?}", x)),
             }))
@@ -497,10 +630,12 @@ fn apply(name: &str, inner: BoxSvc, lc: &Arc<ListenerCounts>, pr: &Option<Arc<Pr
                 .refresh_period(Duration::from_secs(1))
                 .timeout_duration(Duration::ZERO)
                 .on_permit_acquired(move |_| l0.hit(0))
+                .on_permit_acquired(move |_| m0())
+                .on_permit_rejected(move |_| m1())
                 .on_permit_acquired(move |_| l1.hit(1))
                 .on_permit_acquired(move |_| l2.hit(2))
                 .build();
-            boxed(layer.layer(inner).map_err(|e| match e {
+            boxed(map_e(layer.layer(inner), |e| match e {
                 RateLimiterServiceError::Inner(e) => SErr(format!("ratelimiter({})", e)),
                 RateLimiterServiceError::RateLimited => SErr("ratelimiter!limited".into()),
             }))
@@ -510,13 +645,16 @@ fn apply(name: &str, inner: BoxSvc, lc: &Arc<ListenerCounts>, pr: &Option<Arc<Pr
             let layer = CircuitBreakerLayer::builder()
                 .sliding_window_size(1000)
                 .on_call_permitted(move |_| l0.hit(0))
+                // (emitted under the breaker's async lock: the probe queues for it and is finished by `manual probes`)
+                .on_call_permitted(move |_| m0())
+                .on_call_rejected(move || m1())
                 .on_call_permitted(move |_| l1.hit(1))
                 .on_call_permitted(move |_| l2.hit(2))
                 // emitted while the breaker's async lock is held: the probe waits for it
                 .on_success(move |_| f0())
                 .on_failure(move |_| f1())
                 .build();
-            boxed(layer.layer_fn(inner).map_err(|e| match e {
+            boxed(map_e(layer.layer_fn(inner), |e| match e {
                 CircuitBreakerError::Inner(e) => SErr(format!("circuit({})", e)),
                 CircuitBreakerError::OpenCircuit => SErr("circuit!open".into()),
             }))
@@ -534,7 +672,7 @@ fn apply(name: &str, inner: BoxSvc, lc: &Arc<ListenerCounts>, pr: &Option<Arc<Pr
                 .on_call_permitted(move |_| l1.hit(1))
                 .on_call_permitted(move |_| l2.hit(2))
                 .build();
-            boxed(layer.layer_fn(inner).map_err(|e| match e {
+            boxed(map_e(layer.layer_fn(inner), |e| match e {
                 CircuitBreakerError::Inner(e) => SErr(format!("circuit({})", e)),
                 CircuitBreakerError::OpenCircuit => SErr("circuit!open".into()),
             }))
@@ -551,7 +689,7 @@ fn apply(name: &str, inner: BoxSvc, lc: &Arc<ListenerCounts>, pr: &Option<Arc<Pr
                 .on_error(move |_| f1())
                 .on_timeout(move || f2())
                 .build();
-            boxed(layer.layer(inner).map_err(|e| match e {
+            boxed(map_e(layer.layer(inner), |e| match e {
                 TimeLimiterError::Inner(e) => SErr(format!("timelimiter({})", e)),
                 TimeLimiterError::Timeout => SErr("timelimiter!timeout".into()),
             }))
@@ -567,6 +705,7 @@ fn apply(name: &str, inner: BoxSvc, lc: &Arc<ListenerCounts>, pr: &Option<Arc<Pr
                 .on_success(move |_| l0.hit(0))
                 .on_success(move |_| l1.hit(1))
                 .on_success(move |_| l2.hit(2))
+                .on_retry(move |_, _| m0())
                 .on_success(move |_| f0())
                 .on_error(move |_| f1())
                 .on_ignored_error(move || f2())
@@ -580,10 +719,13 @@ fn apply(name: &str, inner: BoxSvc, lc: &Arc<ListenerCounts>, pr: &Option<Arc<Pr
                 .max_size(10_000)
                 .key_extractor(|r: &Req| r.tag % 1000)
                 .on_miss(move || l0.hit(0))
+                // hit / miss are emitted inside the synchronous `call()`: registered, but such a listener does not probe
+                .on_miss(move || m0())
+                .on_hit(move || m1())
                 .on_miss(move || l1.hit(1))
                 .on_miss(move || l2.hit(2))
                 .build();
-            boxed(layer.layer(inner).map_err(|e| match e {
+            boxed(map_e(layer.layer(inner), |e| match e {
                 CacheError::Inner(e) => SErr(format!("cache({})", e)),
             }))
         }
@@ -599,7 +741,7 @@ fn apply(name: &str, inner: BoxSvc, lc: &Arc<ListenerCounts>, pr: &Option<Arc<Pr
                 // every fallback event is emitted after the inner call has returned
                 .on_event(move |_| f0())
                 .build();
-            boxed(layer.layer(inner).map_err(|e| match e {
+            boxed(map_e(layer.layer(inner), |e| match e {
                 FallbackError::Inner(e) => SErr(format!("fallback({})", e)),
                 FallbackError::FallbackFailed(e) => SErr(format!("fallback!failed({})", e)),
             }))
@@ -616,6 +758,11 @@ fn apply(name: &str, inner: BoxSvc, lc: &Arc<ListenerCounts>, pr: &Option<Arc<Pr
             };
             let layer = b
                 .on_event(FnListener::new(move |_: &HedgeEvent| l0.hit(0)))
+                .on_event(FnListener::new(move |e: &HedgeEvent| {
+                    if !matches!(e, HedgeEvent::PrimarySucceeded { .. } | HedgeEvent::HedgeSucceeded { .. } | HedgeEvent::AllFailed { .. }) {
+                        m0()
+                    }
+                }))
                 .on_event(FnListener::new(move |_: &HedgeEvent| l1.hit(1)))
                 .on_event(FnListener::new(move |_: &HedgeEvent| l2.hit(2)))
                 .on_event(FnListener::new(move |e: &HedgeEvent| {
@@ -624,7 +771,7 @@ fn apply(name: &str, inner: BoxSvc, lc: &Arc<ListenerCounts>, pr: &Option<Arc<Pr
                     }
                 }))
                 .build();
-            boxed(layer.layer(inner).map_err(|e| match e {
+            boxed(map_e(layer.layer(inner), |e| match e {
                 HedgeError::Inner(e) => SErr(format!("hedge({})", e)),
                 HedgeError::AllAttemptsFailed(e) => SErr(format!("hedge!all_failed({})", e)),
             }))
@@ -655,7 +802,7 @@ fn apply(name: &str, inner: BoxSvc, lc: &Arc<ListenerCounts>, pr: &Option<Arc<Pr
                 })
                 .build();
             let layer = ReconnectLayer::new(cfg);
-            boxed(layer.layer(inner).map_err(|e| reconnect_err(e.to_string())))
+            boxed(map_e(layer.layer(inner), |e| reconnect_err(e.to_string())))
         }
         // adaptive: AIMD with limit 1000 (no event listeners in this crate)
         "adaptive" => {
@@ -668,16 +815,16 @@ fn apply(name: &str, inner: BoxSvc, lc: &Arc<ListenerCounts>, pr: &Option<Arc<Pr
                 .latency_threshold(Duration::from_secs(3600))
                 .build()
                 .into_layer();
-            boxed(layer.layer(inner).map_err(|e| match e {
+            boxed(map_e(layer.layer(inner), |e| match e {
                 AdaptiveError::Service(e) => SErr(format!("adaptive({})", e)),
                 AdaptiveError::LimitReached => SErr("adaptive!limit".into()),
             }))
         }
-        // coalesce: key = tag (distinct), so every request leads (no event listeners in this crate)
+        // coalesce: key = tag mod 1000 (see `tag_of`): a request leads unless one with the same key is in flight (no event listeners in this crate)
         "coalesce" => {
             use tower_resilience_coalesce::{CoalesceError, CoalesceLayer};
             let layer: CoalesceLayer<u64, Req, KeyFn> = CoalesceLayer::builder(tag_of as KeyFn).name("verif").build();
-            boxed(layer.layer(inner).map_err(|e| match e {
+            boxed(map_e(layer.layer(inner), |e| match e {
                 CoalesceError::Service(e) => SErr(format!("coalesce({})", e)),
                 CoalesceError::LeaderCancelled => SErr("coalesce!leader_cancelled".into()),
                 CoalesceError::RecvError => SErr("coalesce!recv".into()),
@@ -687,7 +834,7 @@ fn apply(name: &str, inner: BoxSvc, lc: &Arc<ListenerCounts>, pr: &Option<Arc<Pr
         "executor" => {
             use tower_resilience_executor::{ExecutorError, ExecutorLayer};
             let layer = ExecutorLayer::<tokio::runtime::Handle>::builder().current().build();
-            boxed(layer.layer(inner).map_err(|e| match e {
+            boxed(map_e(layer.layer(inner), |e| match e {
                 ExecutorError::Service(e) => SErr(format!("executor({})", e)),
                 ExecutorError::TaskCancelled => SErr("executor!cancelled".into()),
             }))
@@ -699,6 +846,9 @@ fn apply(name: &str, inner: BoxSvc, lc: &Arc<ListenerCounts>, pr: &Option<Arc<Pr
             let layer = ChaosLayer::builder()
                 .name("verif")
                 .on_passed_through(move || l0.hit(0))
+                .on_passed_through(move || m0())
+                .on_latency_injected(move |_| m1())
+                .on_error_injected(move || m2())
                 .on_passed_through(move || l1.hit(1))
                 .on_passed_through(move || l2.hit(2))
                 .latency_rate(0.0)
@@ -755,12 +905,11 @@ impl Stack {
         let cl = kv.u64("cl", 2) as usize;
         let (rec, recall) = (kv.u64("rec", 0), kv.u64("recall", 0) == 1);
         let b = if quiet { bottom(&kind, QInner::strict(&script, rec, recall), cl) } else { bottom(&kind, Inner::strict_rec(&script, rec, recall), cl) };
-        let lq = kv.u64("lq", 0);
-        let pr = if lq > 0 { Some(Arc::new(Prober::new(lq, kv.str("lqinner", "0:ok"), quiet))) } else { None };
-        let nobody: Option<Arc<Prober>> = None;
+        let (lq, lqe) = (kv.u64("lq", 0), kv.u64("lqe", 0));
+        let pr = if lq > 0 || lqe > 0 { Some(Arc::new(Prober::new(lq, lqe, kv.u64("lqat", 0) as usize, kv.str("lqinner", "0:ok"), quiet))) } else { None };
         let mut svc = tap(b, n, &sh);
         for (j, name) in layers.iter().enumerate().rev() {
-            svc = match apply(name, svc, &lc, if j == 0 { &pr } else { &nobody }) {
+            svc = match apply(name, svc, &lc, &pr, j) {
                 Some(s) => tap(s, j, &sh),
                 None => {
                     if !quiet {
@@ -827,8 +976,31 @@ fn drive(svc: &mut BoxSvc, req: Req, want: u64) -> (Started, bool) {
         return (Started::Done(s), false);
     }
     match catch_unwind(AssertUnwindSafe(|| svc.call(req))) {
-        Ok(fut) => (Started::Fut(Box::pin(async move { render(fut.await) })), true),
+        Ok(fut) => (Started::Fut(Box::pin(Kept { fut, done: false })), true),
         Err(_) => (Started::Done("panic".into()), true),
+    }
+}
+
+/// The stack's call future; once it has resolved it is NOT destroyed until this wrapper is: the caller decides when a
+/// finished future goes (at once by default; with `arrive … keep=1` at the later `release` op). An `async` block
+/// around `fut.await` would destroy it in the poll that completes it.
+struct Kept {
+    fut: BoxFuture<'static, Result<Resp, SErr>>,
+    done: bool,
+}
+impl Future for Kept {
+    type Output = String;
+    fn poll(mut self: Pin<&mut Self>, cx: &mut Context<'_>) -> Poll<String> {
+        if self.done {
+            panic!("call future polled after completion");
+        }
+        match self.fut.as_mut().poll(cx) {
+            Poll::Ready(r) => {
+                self.done = true;
+                Poll::Ready(render(r))
+            }
+            Poll::Pending => Poll::Pending,
+        }
     }
 }
 
@@ -844,9 +1016,16 @@ struct Pair {
     c: usize,
     a: Option<BoxFuture<'static, String>>,
     b: Option<BoxFuture<'static, String>>,
+    b_done: bool,
     rb: Option<String>,
     /// the twin's prober: probes its listeners asked for are made right after the twin's step
     tp: Option<Arc<Prober>>,
+    /// `keep=1`: the caller keeps its finished future — both finished futures live until the pair is dropped (`release`)
+    keep: bool,
+    /// call-path probes (`lqe`): a probe made inside a listener may queue in front of the emitting call (a fair async
+    /// lock, a bounded wait), which then answers a step later than its twin — timing, not outcome: only the final
+    /// answers are compared (an answer that never comes is a wedged request for the monitors)
+    lenient: bool,
 }
 fn poll_caught(f: &mut BoxFuture<'static, String>, cx: &mut Context<'_>) -> Poll<String> {
     match catch_unwind(AssertUnwindSafe(|| f.as_mut().poll(cx))) {
@@ -862,14 +1041,19 @@ impl Future for Pair {
             Some(f) => poll_caught(f, cx),
             None => Poll::Pending,
         };
-        if let Some(f) = this.b.as_mut() {
-            if let Poll::Ready(s) = poll_caught(f, cx) {
-                this.b = None;
-                if ra.is_pending() {
-                    // the twin answers in a step in which the observed stack does not
-                    log(format!("twin-mismatch {} pending {}", this.c, s));
+        if !this.b_done {
+            if let Some(f) = this.b.as_mut() {
+                if let Poll::Ready(s) = poll_caught(f, cx) {
+                    this.b_done = true;
+                    if !this.keep {
+                        this.b = None;
+                    }
+                    if ra.is_pending() && !this.lenient {
+                        // the twin answers in a step in which the observed stack does not
+                        log(format!("twin-mismatch {} pending {}", this.c, s));
+                    }
+                    this.rb = Some(s);
                 }
-                this.rb = Some(s);
             }
         }
         if let Some(p) = &this.tp {
@@ -877,9 +1061,12 @@ impl Future for Pair {
         }
         match ra {
             Poll::Ready(s) => {
-                // drop both futures before the result is logged (their drop glue belongs to this step)
-                this.a = None;
-                this.b = None;
+                // drop both futures before the result is logged (their drop glue belongs to this step) — unless the
+                // caller keeps its finished future
+                if !this.keep {
+                    this.a = None;
+                    this.b = None;
+                }
                 match this.rb.take() {
                     Some(t) if t == s => {}
                     Some(t) => log(format!("twin-mismatch {} {} {}", this.c, s, t)),
@@ -900,6 +1087,8 @@ pub struct Adapter {
     yields: usize,
     /// probes whose pair of outcomes has been logged
     reported: BTreeSet<u64>,
+    /// see `Pair::lenient`
+    lenient: bool,
 }
 
 impl Adapter {
@@ -908,8 +1097,8 @@ impl Adapter {
         let lp = kv.u64("lp", 0);
         let spawning = layers.iter().filter(|l| layer_spawns(l)).count() + (kv.str("inner", "strict") == "buffer") as usize;
         let main = Stack::new(kv, &layers, lp, false);
-        let twin = if lp != 0 || kv.u64("ls", 0) != 0 || kv.u64("lq", 0) != 0 { Some(Stack::new(kv, &layers, 0, true)) } else { None };
-        Adapter { main, twin, yields: if spawning == 0 { 0 } else { 8 * (spawning + 1) }, reported: BTreeSet::new() }
+        let twin = if lp != 0 || kv.u64("ls", 0) != 0 || kv.u64("lq", 0) != 0 || kv.u64("lqe", 0) != 0 { Some(Stack::new(kv, &layers, 0, true)) } else { None };
+        Adapter { main, twin, yields: if spawning == 0 { 0 } else { 8 * (spawning + 1) }, reported: BTreeSet::new(), lenient: kv.u64("lqe", 0) != 0 }
     }
     /// `presult <k> <outcome> twin=<outcome>` for every probe finished on both sides (`all`: for every probe made)
     fn report_probes(&mut self, all: bool) {
@@ -957,7 +1146,16 @@ impl Mw for Adapter {
                 log(format!("twin-mismatch {} pending {}", c, t));
                 Some(f)
             }
-            (Started::Fut(f), Some(Started::Fut(g))) => Some(Box::pin(Pair { c, a: Some(f), b: Some(g), rb: None, tp })),
+            (Started::Fut(f), Some(Started::Fut(g))) => Some(Box::pin(Pair {
+                c,
+                a: Some(f),
+                b: Some(g),
+                b_done: false,
+                rb: None,
+                tp,
+                keep: kv.u64("keep", 0) == 1,
+                lenient: self.lenient,
+            })),
         }
     }
     fn probe(&mut self, what: &str, _kv: &Kv) {
@@ -979,6 +1177,8 @@ impl Mw for Adapter {
                 p.poll_pending();
             }
             if let Some(p) = self.twin.as_ref().and_then(|t| t.pr.as_ref()) {
+                // requests noted by a listener that ran in a spawned task (no step of a caller followed)
+                p.launch_wanted();
                 p.poll_pending();
             }
             self.report_probes(false);
